@@ -46,7 +46,7 @@ impl Parts {
 
 pub trait Variant: Sized + 'static {
     type H: FuzzyHashType + Copy + Eq + Debug + Display + MaybeSerde + Send + Sync;
-    type G: GeneratorType<Output = Self::H> + Clone + Debug + Send;
+    type G: GeneratorType<Output = Self::H> + Clone + Debug + Send + Sync;
     const NAME: &'static str;
     const INDEX: usize;
     const NB: usize;
